@@ -454,10 +454,15 @@ static Type *declspec(Token **rest, Token *tok, VarAttr *attr) {
       // If a declaration has more than one alignment specifier, the
       // strictest one decides.
       int align;
-      if (is_typename(tok))
+      if (is_typename(tok)) {
         align = typename(&tok, tok)->align;
-      else
-        align = const_expr(&tok, tok);
+      } else {
+        Token *start = tok;
+        int64_t val = const_expr(&tok, tok);
+        if (val < 0 || val > INT32_MAX)
+          error_tok(start, "requested alignment is out of range");
+        align = val;
+      }
       if (attr->align < align)
         attr->align = align;
       tok = skip(tok, ")");
